@@ -39,6 +39,7 @@ def applyCfg (c : Cfg) (item : String) : Cfg :=
   | "fast" => { c with fast := n != 0 }
   | "enabled" => { c with enabled0 := n != 0 }
   | "f4fixed" => { c with f4fixed := n != 0 }
+  | "s4fixed" => { c with s4fixed := n != 0 }
   | _ => c
 
 def applyTrig (t : Trigger) (item : String) : Trigger :=
